@@ -848,6 +848,9 @@ func (r *c20run) runChain(chainSeed int64, nblocks int) {
 		} else if p, m := c20Recover(func() { err = json.Unmarshal(js, &au2) }); p || err != nil {
 			r.violate("c20-update-json-unmarshal", fmt.Sprintf("ApplyUpdate cannot read back its own JSON: %v %s", err, m), rep, "round trip", fmt.Sprint(err, m))
 		} else {
+			if r.c.Thorough() || step%4 == 0 {
+				r.modelUpdateJSON(js, true)
+			}
 			if d := c20DiffsEqual(au, au2); d != "" {
 				r.violate("c20-update-json-diffs", "ApplyUpdate element diffs differ after JSON round trip at "+d, rep, "same diffs", d)
 			}
@@ -877,6 +880,7 @@ func (r *c20run) runChain(chainSeed int64, nblocks int) {
 				} else if p, m := c20Recover(func() { err = json.Unmarshal(rjs, &ru2) }); p || err != nil {
 					r.violate("c20-update-json-unmarshal", fmt.Sprintf("RevertUpdate cannot read back its own JSON: %v %s", err, m), rrep, "round trip", fmt.Sprint(err, m))
 				} else {
+					r.modelUpdateJSON(rjs, false)
 					if d := c20DiffsEqual(ru, ru2); d != "" {
 						r.violate("c20-update-json-diffs", "RevertUpdate element diffs differ after JSON round trip at "+d, rrep, "same diffs", d)
 					}
